@@ -440,7 +440,7 @@ func c04Gen(r *rand.Rand) *c04Case {
 	}
 	marker := evasionCfg{Unix: "_eu_", Windows: "_ew_", SuffixUnix: "_su_", SuffixWindows: "_sw_", NoSpUnix: "_nu_", NoSpWindows: "_nw_"}
 	star := evasionCfg{Unix: `[\x5c'\"]*`, Windows: `[\"\^]*`, SuffixUnix: `(?:\s|<|>).*`, SuffixWindows: `(?:[\s,;]|\.|/|<|>).*`, NoSpUnix: `(?:<|>).*`, NoSpWindows: `[,;./<>].*`}
-	switch r.Intn(16) {
+	switch r.Intn(17) {
 	case 12:
 		// valid YAML, but one value has the wrong type: the file cannot be used, nothing is inserted
 		c.CfgName, c.Effective, c.Exact = "wrong-type", evasionCfg{}, true
@@ -449,6 +449,10 @@ func c04Gen(r *rand.Rand) *c04Case {
 		// patterns with `$` followed by a name or a digit (text that a replacement template would expand)
 		dollar := evasionCfg{Unix: `(?:\$ifs|\$1|\${x})?`, Windows: `(?:\$0)?`, SuffixUnix: `\$end.*`, SuffixWindows: `\${1}.*`, NoSpUnix: `\$n.*`, NoSpWindows: `\$w.*`}
 		c.CfgName, c.CfgYAML, c.Effective, c.Exact = "dollar-names", dollar.yaml(), dollar, true
+	case 16:
+		// a file of more than 64 KiB with a very long comment line in front of the patterns
+		c.CfgName, c.Effective, c.Exact = "long-comment-line", marker, true
+		c.CfgYAML = "# " + strings.Repeat("generated by a tool that does not wrap its comments ", 1400) + "\n" + marker.yaml()
 	case 15:
 		c.CfgName, c.CfgYAML, c.Effective, c.Exact = "unreadable", marker.yaml(), evasionCfg{}, true
 	case 14:
@@ -496,7 +500,7 @@ func init() {
 	register(&core.Property{
 		ID:    "C04",
 		Level: "exploration",
-		Rule: "generated cmdline blocks (unix/windows; 1..5 words over letters, digits, '.', '-', '_', space, with @ / ~ / escaped markers and quote lines; bare, beside plain entries, nested in an assemble block between markers, fed through an include) x 16 configurations of toolchain.yaml (two in seven reached through a relative or absolute symbolic link), a part of them with comments and unknown keys added (the CRS patterns, patterns with `$name` / `$1` text, patterns with percent signs, distinct literal markers per key and OS, starred classes, absent file, empty file, partial keys, invalid YAML, valid YAML with a wrongly typed value, a directory in place of the file, a file whose every read fails with EIO (injected with strace), another file selected with -f next to a decoy default, quoted/folded scalars with a grouped alternation) are compiled by the built CLI. " +
+		Rule: "generated cmdline blocks (unix/windows; 1..5 words over letters, digits, '.', '-', '_', space, with @ / ~ / escaped markers and quote lines; bare, beside plain entries, nested in an assemble block between markers, fed through an include) x 17 configurations of toolchain.yaml (two in seven reached through a relative or absolute symbolic link), a part of them with comments and unknown keys added (the CRS patterns, patterns with `$name` / `$1` text, patterns with percent signs, distinct literal markers per key and OS, starred classes, absent file, empty file, partial keys, invalid YAML, valid YAML with a wrongly typed value, a directory in place of the file, a file whose every read fails with EIO (injected with strace), another file selected with -f next to a decoy default, quoted/folded scalars with a grouped alternation) are compiled by the built CLI. " +
 			"Oracle (membership): for every word the word itself and up to 14 variants with strings inserted between adjacent characters — drawn by random walks from the configured pattern's syntax tree and validated against the plain reading of that single word with Go's regexp — must be matched by the output under search semantics; @/~ variants carry a sampled member of the configured suffix; in single-word programs the bare word (suffix demanded), the word without its escaped marker, the word without its space and the word with '.'/'-' replaced must not be matched; quote lines pass through. For concatenation-safe patterns the output is also compared exactly with the plain-reading model under the configuration in force. A third of the cases also store the program as 932100.ra and run `regex update`: the stored operand must equal generate's output byte for byte. Non-trivial = >= 3 validated variants.",
 		Cases: func(env *core.Env, rng *rand.Rand) []core.Case {
 			n := env.N(2000, 20000)
